@@ -171,6 +171,48 @@ fn nt_c09_limits(h: &Hist) -> bool {
     h.limit_hit && (h.labels.contains_key("burst") || h.labels.contains_key("nest"))
 }
 
+fn o_c16_disabled(h: &Hist) -> Vec<Viol> {
+    let mut out = oracle::c16(&Index::new(h));
+    let calls = crate::exec::REPORT_CALLS.load(std::sync::atomic::Ordering::SeqCst);
+    if calls != 0 || h.batches.iter().any(|b| !b.records.is_empty()) {
+        out.push(Viol { prop: "C16", sig: "disabled:reporter-called".into(), msg: format!("the reporter was called {} times in a build without the enable feature", calls) });
+    }
+    if h.convs.iter().any(|c| !c.records.is_empty()) {
+        out.push(Viol { prop: "C16", sig: "disabled:to_span_records".into(), msg: "to_span_records returned records in a build without the enable feature".into() });
+    }
+    if h.closures.iter().any(|c| c.invoked) {
+        out.push(Viol { prop: "C16", sig: "disabled:closure-invoked".into(), msg: "a property closure was invoked in a build without the enable feature".into() });
+    }
+    // the worker's main thread only (vthreads of the case are joined; a joined thread may take a
+    // moment to disappear from /proc, so look at the names and retry briefly)
+    let names = || -> Vec<String> {
+        std::fs::read_dir("/proc/self/task")
+            .map(|d| d.filter_map(|e| e.ok()).filter_map(|e| std::fs::read_to_string(e.path().join("comm")).ok()).map(|s| s.trim().to_string()).collect())
+            .unwrap_or_default()
+    };
+    let mut extra: Vec<String> = vec![];
+    for _ in 0..200 {
+        extra = names().into_iter().filter(|n| !n.starts_with("vt") && n != "fr-core").collect();
+        if extra.is_empty() {
+            break;
+        }
+        std::thread::sleep(std::time::Duration::from_millis(1));
+    }
+    if !extra.is_empty() {
+        out.push(Viol { prop: "C16", sig: "disabled:thread-spawned".into(), msg: format!("threads {:?} exist after the case; a disabled build must not spawn any", extra) });
+    }
+    out.extend(oracle::c07(h).into_iter().map(|mut v| {
+        v.prop = "C16";
+        v
+    }));
+    out
+}
+
+fn nt_c16_disabled(h: &Hist) -> bool {
+    let apis: HashSet<&str> = h.closures.iter().map(|c| c.api).collect();
+    apis.len() >= 3
+}
+
 fn o_c03(h: &Hist) -> Vec<Viol> {
     oracle::c03(&Index::new(h), "C03")
 }
@@ -510,7 +552,7 @@ pub fn spec(id: &str, variant: &str, cancelable: bool, thorough: bool) -> Option
             }),
             opts: ExecOpts {
                 stats: true,
-                exclude: vec!["dup_unit_attach", "clp_empty_token"],
+                exclude: vec!["dup_unit_attach"],
                 ..ExecOpts::new(Mode::Sched)
             },
             oracle: o_c09,
@@ -537,7 +579,7 @@ pub fn spec(id: &str, variant: &str, cancelable: bool, thorough: bool) -> Option
                 ])
             },
             opts: ExecOpts {
-                exclude: vec!["dup_unit_attach", "clp_empty_token"],
+                exclude: vec!["dup_unit_attach"],
                 ..api.clone()
             },
             oracle: o_c09,
@@ -592,7 +634,7 @@ pub fn spec(id: &str, variant: &str, cancelable: bool, thorough: bool) -> Option
                 ])
             }),
             opts: ExecOpts {
-                exclude: vec!["clp_empty_token"],
+                exclude: vec![],
                 ..api.clone()
             },
             oracle: o_c05,
@@ -645,7 +687,7 @@ pub fn spec(id: &str, variant: &str, cancelable: bool, thorough: bool) -> Option
                 ])
             }),
             opts: ExecOpts {
-                exclude: vec!["clp_empty_token"],
+                exclude: vec![],
                 auto_probe: true,
                 ..api.clone()
             },
@@ -670,7 +712,7 @@ pub fn spec(id: &str, variant: &str, cancelable: bool, thorough: bool) -> Option
                 ])
             }),
             opts: ExecOpts {
-                exclude: vec!["clp_empty_token"],
+                exclude: vec![],
                 unique_traces: false,
                 ..api.clone()
             },
@@ -762,6 +804,55 @@ pub fn spec(id: &str, variant: &str, cancelable: bool, thorough: bool) -> Option
             nontrivial: nt_c07,
             rule: "API call sequences over all public entry points incl. re-entrant mini programs run from inside property/event closures, empty and all-no-op parent sets (also set as local parent), no-op/unsampled spans, no local parent; non-trivial = the case enters one of: re-entrant closure, empty-token span or scope, scope-limit burst, nesting-limit; distinct = hash of the executed model shape",
         },
+        ("C07", "noreporter") => {
+            let mut sp = spec("C07", "api", cancelable, thorough).unwrap();
+            sp.opts.reporter_ready = false;
+            sp.rule = "same call sequences in a fresh process in which no reporter was ever installed (every span is a no-op, flush() has no collector); non-trivial as for the api variant";
+            sp
+        }
+        ("C07", "limits") => {
+            let mut sp = spec("C09", "limits", cancelable, thorough).unwrap();
+            sp.id = "C07";
+            sp.oracle = o_c07;
+            sp.nontrivial = nt_c07;
+            sp
+        }
+        ("C07", "sched") => PropSpec {
+            id: "C07",
+            profile: big(Profile {
+                threads: (1, 3),
+                ops: (0, 14),
+                cycles: (0, 4),
+                sched_len: (0, 30),
+                reentrant: true,
+                ..base.clone().set(&[
+                    (K::Fill, 8),
+                    (K::Cancel, 4),
+                    (K::MultiChild, 4),
+                    (K::AddPropsH, 4),
+                    (K::AddPropsL, 4),
+                    (K::AddEventH, 4),
+                    (K::AddEventL, 4),
+                    (K::CtxOfLocal, 3),
+                    (K::Flush, 2),
+                    (K::Exit, 2),
+                    (K::PushChildSpans, 2),
+                    (K::CollectorStart, 2),
+                ])
+            }),
+            opts: ExecOpts::new(Mode::Sched),
+            oracle: o_c07,
+            nontrivial: nt_c07,
+            rule: "call sequences with ring-fill episodes (full command queue) under the hooked scheduler, incl. re-entrant closures; every operation must complete within its own steps (an operation that needed another vthread would deadlock the scheduler); non-trivial = a fill episode or a re-entrant closure occurred",
+        },
+        ("C16", "disabled") => {
+            let mut sp = spec("C16", "api", cancelable, thorough).unwrap();
+            sp.oracle = o_c16_disabled;
+            sp.nontrivial = nt_c16_disabled;
+            sp.profile = sp.profile.set(&[(K::CollectorStart, 4), (K::PushChildSpans, 3), (K::ToSpanRecords, 3), (K::CtxOfLocal, 4), (K::Flush, 3), (K::Root, 12), (K::RootFromCtx, 2)]);
+            sp.rule = "the full operation language compiled against fastrace WITHOUT the enable feature: every closure passed to the library counts its invocations; oracle: zero report() calls, no context/elapsed/records, no closure invoked, #[trace] functions return their values; non-trivial = >=3 distinct closure-taking entry points exercised";
+            sp
+        }
         ("C16", "api") => PropSpec {
             id: "C16",
             profile: big(Profile {
@@ -785,7 +876,7 @@ pub fn spec(id: &str, variant: &str, cancelable: bool, thorough: bool) -> Option
                 ])
             }),
             opts: ExecOpts {
-                exclude: vec!["clp_empty_token"],
+                exclude: vec![],
                 ..api.clone()
             },
             oracle: o_c16,
